@@ -2,7 +2,7 @@
    Only statements, `exact <lemma>` and Print Assumptions live here. *)
 From Coq Require Import ZArith List Bool String Lia.
 From BNP Require Import Base.Prims Model.C18 Corr.C18 Proofs.C18_power Proofs.C18_int Proofs.C18_lists Proofs.C18_float
-  Proofs.C18_matrix Proofs.C18_double Proofs.C18_link Gen.C18 Bridge.C18.
+  Proofs.C18_matrix Proofs.C18_double Proofs.C18_link Proofs.C18_errors Gen.C18 Bridge.C18.
 Import ListNotations.
 Open Scope Z_scope.
 
@@ -215,49 +215,79 @@ Print Assumptions C18_float_short_decimal_partial.
    class of the correspondence (Corr/C18.v), for well-formed input rows.  They hold for the repaired variants the
    Corr switches select now (eq_refl below breaks if a switch is flipped back). *)
 Theorem C18_link_format_ints :
-  forall rows runs pw route idx out,
+  forall rows runs pw er af route idx out,
     Forall (fun r => exists n, r = [n] /\ - 2 ^ 63 <= n < 2 ^ 63) rows -> Forall (fun i => 0 <= i < len rows) idx ->
-    run_model {| k_kind := 0; k_rows := rows; k_runs := runs; k_pow := pw |} (route, idx, out) = true ->
-    run_spec {| k_kind := 0; k_rows := rows; k_runs := runs; k_pow := pw |} (route, idx, out) = true.
-Proof. exact (fun rows runs pw route idx out => link_format_ints rows runs pw route idx out eq_refl). Qed.
+    run_model {| k_kind := 0; k_rows := rows; k_runs := runs; k_pow := pw; k_errs := er; k_after := af |} (route, idx, out) = true ->
+    run_spec {| k_kind := 0; k_rows := rows; k_runs := runs; k_pow := pw; k_errs := er; k_after := af |} (route, idx, out) = true.
+Proof. exact (fun rows runs pw er af route idx out => link_format_ints rows runs pw er af route idx out eq_refl). Qed.
 Print Assumptions C18_link_format_ints.
 Theorem C18_link_parse_ints :
-  forall rows runs pw route idx out,
+  forall rows runs pw er af route idx out,
     Forall (fun t => exists v, text_value t = Some v /\ - 2 ^ 63 <= v < 2 ^ 63) rows -> Forall (fun i => 0 <= i < len rows) idx ->
-    run_model {| k_kind := 1; k_rows := rows; k_runs := runs; k_pow := pw |} (route, idx, out) = true ->
-    run_spec {| k_kind := 1; k_rows := rows; k_runs := runs; k_pow := pw |} (route, idx, out) = true.
+    run_model {| k_kind := 1; k_rows := rows; k_runs := runs; k_pow := pw; k_errs := er; k_after := af |} (route, idx, out) = true ->
+    run_spec {| k_kind := 1; k_rows := rows; k_runs := runs; k_pow := pw; k_errs := er; k_after := af |} (route, idx, out) = true.
 Proof. exact link_parse_ints. Qed.
 Print Assumptions C18_link_parse_ints.
 Theorem C18_link_format_lists :
-  forall rows runs pw route idx out,
+  forall rows runs pw er af route idx out,
     Forall (Forall (fun n => - 2 ^ 63 <= n < 2 ^ 63)) rows -> Forall (fun i => 0 <= i < len rows) idx ->
-    run_model {| k_kind := 2; k_rows := rows; k_runs := runs; k_pow := pw |} (route, idx, out) = true ->
-    run_spec {| k_kind := 2; k_rows := rows; k_runs := runs; k_pow := pw |} (route, idx, out) = true.
-Proof. exact (fun rows runs pw route idx out => link_format_lists rows runs pw route idx out eq_refl). Qed.
+    run_model {| k_kind := 2; k_rows := rows; k_runs := runs; k_pow := pw; k_errs := er; k_after := af |} (route, idx, out) = true ->
+    run_spec {| k_kind := 2; k_rows := rows; k_runs := runs; k_pow := pw; k_errs := er; k_after := af |} (route, idx, out) = true.
+Proof. exact (fun rows runs pw er af route idx out => link_format_lists rows runs pw er af route idx out eq_refl). Qed.
 Print Assumptions C18_link_format_lists.
 Theorem C18_link_parse_lists :
-  forall rows runs pw route idx out,
+  forall rows runs pw er af route idx out,
     Forall (fun row => exists ts vs, row = intercalate [44] ts
                                    /\ Forall2 (fun t v => text_value t = Some v /\ - 2 ^ 63 <= v < 2 ^ 63) ts vs) rows ->
     Forall (fun i => 0 <= i < len rows) idx ->
-    run_model {| k_kind := 3; k_rows := rows; k_runs := runs; k_pow := pw |} (route, idx, out) = true ->
-    run_spec {| k_kind := 3; k_rows := rows; k_runs := runs; k_pow := pw |} (route, idx, out) = true.
-Proof. exact (fun rows runs pw route idx out => link_parse_lists rows runs pw route idx out eq_refl). Qed.
+    run_model {| k_kind := 3; k_rows := rows; k_runs := runs; k_pow := pw; k_errs := er; k_after := af |} (route, idx, out) = true ->
+    run_spec {| k_kind := 3; k_rows := rows; k_runs := runs; k_pow := pw; k_errs := er; k_after := af |} (route, idx, out) = true.
+Proof. exact (fun rows runs pw er af route idx out => link_parse_lists rows runs pw er af route idx out eq_refl). Qed.
 Print Assumptions C18_link_parse_lists.
 Theorem C18_link_parse_floats :
-  forall rows runs pw route idx out,
+  forall rows runs pw er af route idx out,
     Forall (fun t => exists x, t = text_of x /\ ftext_wf true x) rows -> Forall (fun i => 0 <= i < len rows) idx ->
-    run_model {| k_kind := 4; k_rows := rows; k_runs := runs; k_pow := pw |} (route, idx, out) = true ->
-    run_spec {| k_kind := 4; k_rows := rows; k_runs := runs; k_pow := pw |} (route, idx, out) = true.
-Proof. exact (fun rows runs pw route idx out => link_parse_floats rows runs pw route idx out eq_refl). Qed.
+    run_model {| k_kind := 4; k_rows := rows; k_runs := runs; k_pow := pw; k_errs := er; k_after := af |} (route, idx, out) = true ->
+    run_spec {| k_kind := 4; k_rows := rows; k_runs := runs; k_pow := pw; k_errs := er; k_after := af |} (route, idx, out) = true.
+Proof. exact (fun rows runs pw er af route idx out => link_parse_floats rows runs pw er af route idx out eq_refl). Qed.
 Print Assumptions C18_link_parse_floats.
 Theorem C18_link_digit_matrix :
-  forall data ivrows runs pw route idx out,
+  forall data ivrows runs pw er af route idx out,
     Forall (fun r => iv_ok data (iv_of r)) ivrows -> Forall (fun i => 1 <= i < 1 + len ivrows) idx ->
-    run_model {| k_kind := 6; k_rows := data :: ivrows; k_runs := runs; k_pow := pw |} (route, idx, out) = true ->
-    run_spec {| k_kind := 6; k_rows := data :: ivrows; k_runs := runs; k_pow := pw |} (route, idx, out) = true.
+    run_model {| k_kind := 6; k_rows := data :: ivrows; k_runs := runs; k_pow := pw; k_errs := er; k_after := af |} (route, idx, out) = true ->
+    run_spec {| k_kind := 6; k_rows := data :: ivrows; k_runs := runs; k_pow := pw; k_errs := er; k_after := af |} (route, idx, out) = true.
 Proof. exact link_digit_matrix. Qed.
 Print Assumptions C18_link_digit_matrix.
+
+(* Malformed texts.  Batches of valid integer texts never raise (the code as it is; the outcome model str_to_int_res
+   has three results: values / EncodingError at a row / another exception). *)
+Theorem C18_parse_valid_never_raises :
+  forall texts vs, Forall2 (fun t v => text_value t = Some v /\ - 2 ^ 63 <= v < 2 ^ 63) texts vs ->
+    str_to_int_res texts = POk vs.
+Proof. exact str_to_int_res_valid. Qed.
+Print Assumptions C18_parse_valid_never_raises.
+(* With the proposed repair notes/C18.fix-3.diff: a text passes the checks iff the Spec gives it a value, and a batch
+   raises EncodingError exactly when it holds a malformed text — reported at the FIRST such row, whatever the other
+   rows are (row independence of the error report); otherwise the values are returned. *)
+Theorem C18_parse_errors_fixed :
+  (forall t, int_text_ok t = true <-> exists v, text_value t = Some v)
+  /\ forall texts,
+       str_to_int_res_fixed texts
+       = match find_index (fun t => match text_value t with None => true | Some _ => false end) texts 0 with
+         | Some r => PEnc r
+         | None => match str_to_int_rows texts with Some vs => POk vs | None => POther end
+         end.
+Proof. exact (conj int_text_ok_iff str_to_int_fixed_first_malformed). Qed.
+Print Assumptions C18_parse_errors_fixed.
+(* The code as it is does not do that yet: a sign without digits is reported before an earlier bad character, and
+   an exponent without digits raises a ValueError instead of the parse error. *)
+Theorem C18_parse_errors_refuted :
+  str_to_int_res [[49; 97]; [45]] = PEnc 1                       (* ['1a', '-'] : first malformed row is 0 *)
+  /\ str_to_int_res_fixed [[49; 97]; [45]] = PEnc 0
+  /\ str_to_float_err [[50]; [49; 101]] = POther                 (* ['2', '1e'] *)
+  /\ str_to_float_err_fixed [[50]; [49; 101]] = PEnc 1.
+Proof. vm_compute. repeat split; reflexivity. Qed.
+Print Assumptions C18_parse_errors_refuted.
 
 (* Source tie: the arithmetic regenerated on this run from /repo/bionumpy/io/strops.py and io/file_buffers.py
    (Gen/C18.v, written by translate/run.py through translate/gen_c18.py) is the arithmetic the model functions are
